@@ -277,11 +277,25 @@ func runRecover(c *ctx) error {
 					latest = slot
 				}
 			}
+			// a row the meter was still writing: its energy column does not parse (reported as 3) ...
+			half := len(lines)
+			lines = append(lines, fmt.Sprintf("%d,%s", G+int64(now-6)*300+11, "12x"))
 			cli.WriteEnergy(lines)
 			if !cli.Iterate() {
 				return fmt.Errorf("report loop stuck")
 			}
 			want := nsent
+			nsent = 0
+			for _, b := range rl.take(want) {
+				ts.Emit(hx.J{"a": "Net", "op": "drop", "dg": dg(b)})
+			}
+			// ... and is complete on the next pass: what was sent for the slot stays what the history holds
+			lines[half] = fmt.Sprintf("%d,%d", G+int64(now-6)*300+11, 700)
+			cli.WriteEnergy(lines)
+			if !cli.Iterate() {
+				return fmt.Errorf("report loop stuck")
+			}
+			want = nsent
 			nsent = 0
 			for _, b := range rl.take(want) {
 				ts.Emit(hx.J{"a": "Net", "op": "drop", "dg": dg(b)})
